@@ -78,6 +78,7 @@ htp_status_t htp_process_request_header_generic(htp_connp_t *connp, unsigned cha
             if (connp->in_tx->req_header_repetitions < HTP_MAX_HEADERS_REPETITIONS) {
                 connp->in_tx->req_header_repetitions++;
             } else {
+                HTP_VERIF_PROBE("req.hdr.repeat_cap", connp, connp->in_tx->req_header_repetitions, 0);
                 bstr_free(h->name);
                 bstr_free(h->value);
                 free(h);
